@@ -298,6 +298,9 @@ def std_position_ok(crate, body_name, callee, term):
         hid = r.get("hid")
         if hid in _assigned_locals(b["hir"]):
             return False
+        whole_ = slice_len(b, n, n.get("recv"))
+        if whole_ is not None and k <= whole_:
+            return True        # the slice's length is fixed on this path (a `len == N` guard, a `match x.len() { N => .. }` arm)
 
         def conj(e):
             if e.get("k") == "Binary" and e.get("op") == "&&":
